@@ -76,6 +76,25 @@ def run(tier, seed):
             docs.append([{"p": "f", "k": "del"}, {"p": "g", "k": "upd", "mv": "f", "hs": [{"b": ["b"], "a": ["c"]}]}, fail_hunk])
         for doc in docs:
             cases.append({"id": f"p{len(cases)}", "fs0": fs0, "doc": doc, "tool": len(cases) % 2 == 0, "_res": {"ok": False, "fs": fs0, "changed": []}})
+    #  (c) a failing document that first changed existing files and then created a path that is gone again when the failure
+    #      comes (added then deleted, added then moved away, twice over): undoing "created" for a path that no longer exists must
+    #      not stop the roll-back of what was changed before it
+    nope = {"p": "nope", "k": "del"}
+    updf = {"p": "f", "k": "upd", "mv": "none", "hs": [{"b": ["a"], "a": ["c"]}]}
+    addg = {"p": "g", "k": "add", "lines": ["a"]}
+    delg = {"p": "g", "k": "del"}
+    fsA = {"f": T(["a", "b"]), "g": dict(ABS), "d/h": T(["a"])}
+    fsB = {"f": T(["a", "b"]), "g": dict(ABS), "d/h": dict(ABS)}
+    gone = [
+        (fsA, [updf, addg, delg, fail_hunk]), (fsA, [updf, addg, delg, nope]), (fsA, [{"p": "f", "k": "del"}, addg, delg, fail_hunk]),
+        (fsA, [{"p": "d/h", "k": "upd", "mv": "none", "hs": [{"b": ["a"], "a": ["c"]}]}, updf, addg, delg, addg, delg, nope]),
+        (fsB, [updf, addg, {"p": "g", "k": "upd", "mv": "d/h", "hs": [{"b": ["a"], "a": ["c"]}]}, nope]),
+        (fsB, [{"p": "f", "k": "del"}, addg, {"p": "g", "k": "upd", "mv": "d/h", "hs": [{"b": ["a"], "a": ["c"]}]}, {"p": "d/h", "k": "del"}, nope]),
+        (fsB, [updf, {"p": "d/h", "k": "add", "lines": ["a"]}, {"p": "d/h", "k": "del"}, addg, nope]),
+    ]
+    for fs0, doc in gone:
+        for tool in (False, True):
+            cases.append({"id": f"p{len(cases)}", "fs0": fs0, "doc": doc, "tool": tool, "_res": {"ok": False, "fs": fs0, "changed": []}})
     ctx = [
         # anchor 'b' (context only), then 'a' -> 'c' must hit the 'a' AFTER the anchor
         ({"f": T(["a", "b", "a"]), "g": dict(ABS), "d/h": dict(ABS)}, [{"p": "f", "k": "upd", "mv": "none", "hs": [{"b": ["b"], "a": ["b"]}, {"b": ["a"], "a": ["c"]}]}],
